@@ -19,7 +19,7 @@ func init() {
 			"(R03.2) a dominating guard G > 0 whose linear form equals EndTokenIndex-StartTokenIndex+1; (R03.3) StartLine/EndLine are the Line of the target document's token at exactly the stored Start/EndTokenIndex; " +
 			"(R03.4) the returned slice is an order-preserving filter of a slice sorted (after its last append) by a comparator whose first key is Confidence descending; (R03.5) Name/Variant/MatchType are decoded from the same corpus key that was scored; " +
 			"(R03.6) the key format of generateDocName agrees with the three decoders and every docs key comes from it; (R03.7) Copyright pseudo-matches have constant confidence 1.0 and StartLine = EndLine; (R03.8) the last-token access is guarded; " +
-			"(R03.9) the tokenizer's line counter advances at most once per consumed rune and deferred increments are paired with a swallowed newline; (R03.10) the line-to-tokens conversion emits at most one token per buffered word (token indices are bounded by the number of input words). Necessary conditions of the property for all inputs and thresholds; Confidence <= 1.0 (float reasoning) is not decided.",
+			"(R03.12) the components of the corpus key cannot contain the separator the key is split at (fails today: known finding D39); (R03.9) the tokenizer's line counter advances at most once per consumed rune and deferred increments are paired with a swallowed newline; (R03.10) the line-to-tokens conversion emits at most one token per buffered word (token indices are bounded by the number of input words). Necessary conditions of the property for all inputs and thresholds; Confidence <= 1.0 (float reasoning) is not decided.",
 		Run: runC03,
 	})
 }
@@ -227,6 +227,7 @@ func runC03(c *Ctx) {
 
 	checkOrdering(c, p)
 	checkKeyFormat(c, p, "R03.6")
+	checkKeyComponents(c, p)
 
 	// R03.8: constant-position accesses in match and the decoders
 	decoderFns := map[*ssa.Function]bool{}
@@ -837,6 +838,54 @@ func ascendingIndex(v ssa.Value) bool {
 }
 
 // checkKeyFormat: R03.6.
+// checkKeyComponents: R03.12. The triple a match reports is recovered from the corpus key by splitting it at the
+// separator it was joined with. That only gives back what was added if no component contains the separator: AddContent
+// (the only way in) has to test its three components for it before the document is stored, or the triple has to be kept
+// with the document instead of being re-split.
+func checkKeyComponents(c *Ctx, p *core.Prog) {
+	ac := p.Func(v2pkg, "(*Classifier).AddContent")
+	if !c.R.Anchor(ac != nil, "v2.(*Classifier).AddContent") {
+		return
+	}
+	// are the reported components recovered by splitting? (decoders called on the key in the Match literal)
+	splits := false
+	for _, fn := range v2Funcs(p) {
+		for _, call := range core.CallsIn(fn) {
+			if n := core.StaticCalleeName(call.Common()); n == "strings.Split" || n == "strings.SplitN" {
+				if isString(call.Common().Args[0].Type()) && (p.IsFn(fn, v2pkg, "LicenseName") || p.IsFn(fn, v2pkg, "variantName") || p.IsFn(fn, v2pkg, "detectionType") || p.IsFn(fn, v2pkg, "(*Classifier).match")) {
+					splits = true
+				}
+			}
+		}
+	}
+	if !splits {
+		c.R.OK("R03.12", "the reported triple is not recovered by splitting the corpus key", p.Pos(ac.Pos()), "no strings.Split in the key decoders")
+		return
+	}
+	var untested []string
+	for i := 1; i <= 3 && i < len(ac.Params); i++ {
+		prm := ac.Params[i]
+		tested := false
+		for _, fn := range pkgClosure(ac, v2pkg) {
+			for _, call := range core.CallsIn(fn) {
+				switch core.StaticCalleeName(call.Common()) {
+				case "strings.Contains", "strings.ContainsRune", "strings.IndexByte", "strings.IndexRune", "strings.Index", "strings.ContainsAny":
+					for _, tup := range callSiteTuples(p, []ssa.Value{core.Unspill(call.Common().Args[0])}) {
+						if tup[0] == ssa.Value(prm) {
+							tested = true
+						}
+					}
+				}
+			}
+		}
+		if !tested {
+			untested = append(untested, []string{"", "category", "name", "variant"}[i])
+		}
+	}
+	c.R.Check(len(untested) == 0, "R03.12", "AddContent tests the components of the corpus key for the key separator", p.Pos(ac.Pos()), "every component is searched for the separator before the document is stored",
+		"the reported (MatchType, Name, Variant) is recovered by splitting the key category/name/variant at the path separator, but AddContent accepts "+strings.Join(untested, ", ")+" containing it: the document is then reported under another identity (Name \"Doorknob/2.0\" comes back as Name \"Doorknob\", Variant \"2.0\" - possibly the identity of a different document)")
+}
+
 func checkKeyFormat(c *Ctx, p *core.Prog, rule string) {
 	gen := p.Func(v2pkg, "(*Classifier).generateDocName")
 	if !c.R.Anchor(gen != nil, "v2.(*Classifier).generateDocName") {
